@@ -129,9 +129,12 @@ class Dispatcher(InstructionGenerator):
 
         initial_instructions: Tuple[DispatchTripInstruction, ...] = tuple()
 
+        # fleets are solved in a fixed order: a vehicle that belongs to several fleets can be
+        # matched more than once and the last instruction generated for it is the one applied,
+        # so iterating the (unordered) set directly makes the outcome depend on hash ordering
         all_instructions = ft.reduce(
             _solve_assignment,
-            fleet_ids,
+            sorted(fleet_ids, key=lambda fleet_id: "" if fleet_id is None else fleet_id),
             initial_instructions,
         )
 
